@@ -26,6 +26,11 @@ CHECKS = {
         note="Trusted: Lean kernel + [propext, Classical.choice, Quot.sound]; hand-written Model/Seg.lean, Model/Action.lean, Model/Assoc.lean tied by correspondence; tools/fontsynth.py.",
         technique="Lean 4 invariant proof over all opcode sequences + differential execution of associateChars and action programs + public-API predicate on synthesised fonts",
         ref="§6 C03/C04/C05"),
+    "C19": dict(
+        text="Proof (Lean 4 kernel), partial: gr_slot_linebreak_before and the line-end sentinels of justification (Segment::addLineEnd / delLineEnd) are modelled on the slot heap; cut_splits_stream - cutting in front of any interior slot of a well-formed stream yields two well-formed doubly linked chains with the same slots in the same order; sentinel_roundtrip - inserting the line-end sentinel in front of a stream slot and deleting it again restores first, last and every link, whatever the slot allocator did. Segment::justify as a whole (arithmetic, justification passes, positionSlots, the two reverseSlots calls) is NOT modelled; 'every call returns, every line still the same chain, finite widths and origins, destroy releases everything' is decided on the implementation by randomised API histories over 6 shipped fonts x dir 0..7 x cuts x justify argument tuples under ASan/LSan. Known finding D-10b (requested direction opposite to the font's on a cut segment) is reported as KNOWN-FINDING.",
+        note="Trusted: Lean kernel + [propext, Classical.choice, Quot.sound]; hand-written Model/Lines.lean tied by correspondence on cut/sentinel operation sequences; the history predicate (per-line walks) for everything justify does beyond that.",
+        technique="Lean 4 theorems on a hand-written heap model of cut and sentinel operations + differential execution + randomised public-API histories under ASan/LSan",
+        ref="§6 C19"),
     "C11": dict(
         text="Proof (Lean 4 kernel), for all code-unit strings in all three encodings: gr_count_unicode_characters' model never faults on [begin,end) and equals the Unicode specification's scan (Table 3-7/D91/D90) - exact count without error on well-formed text, error reported on ill-formed text, error pointer inside the buffer, count <= well-formed characters before the first ill-formed sequence; NUL-terminated branch never reads past a NUL; get/put inverse on all scalar values; ill-formed sequences swallow only trailing units (resync); the three encodings of a scalar list read back as the same scalars. Decoder tables, limits and toolong thresholds are REGENERATED from UtfCodec.h/.cpp. Model tied to the code by differential execution under ASan: every UTF-8 string of <=3 bytes (exhaustive, 16.8M), boundary-structured longer strings, UTF-16/32 boundary products, gr_make_seg char-infos.",
         note="Trusted: Lean kernel + [propext, Classical.choice, Quot.sound]; extractor for Gen.Utf; hand-written Model/Utf.lean tied by finite differential runs; Spec/Utf.lean validated against Python's strict codecs through the predicate on implementation outputs. Whole-segment equality across encodings is reduced to equality of the decoded scalar list.",
